@@ -585,6 +585,14 @@ func StartExploring() {
 	w.exploring = true
 }
 
+// StopExploring switches back to the deterministic scheduler (first enabled, non-preemptive) for the rest of
+// the execution: harnesses whose scenario does not include Shutdown use it for the final clean-up.
+func StopExploring() {
+	w := Cur()
+	w.checkAbort()
+	w.exploring = false
+}
+
 // Quiesce parks the caller until no other normal-priority goroutine is enabled.
 func Quiesce() {
 	w := Cur()
